@@ -17,6 +17,14 @@ CHECKS = {
          "TLC proves exhaustively (ring 32, epoch 3, up to 12-16 operations, up to 3-4 power cuts between any two steps, start boundaries next to the wrap) that the three counter machines transcribed from the code refine Layer P (NoReuse, CoveredBeforeUse); TLC-simulated schedules are replayed on the real Sessions / Events / Icd objects over a recording key-value store with the real epochs, and the recorded Store/Use/Restart traces are validated by TLC against Layer P.",
          "Trusted: TLC; the harness stores the group boundary exactly where Exchange::initiate_group does (the real call site is additionally exercised by the C12 end-to-end scenario when present). Store operations are assumed not to fail (outside the property's quantifier).",
          "TLA+ refinement check (TLC) + TLC-generated schedules replayed on the real code + TLC trace validation", "DESIGN.md section 4 C12"),
+ "C13": ("model_checking",
+         "Level 1 (subscription table): TLC proves exhaustively (2 subscribers, 3 paths in 2 clusters, change table of 2 with coalescing, up to 2-3 changes, one failed report, every interleaving of changes with multi-step priming, reporter passes, purge and time) that the table + reporter loop transcribed from subscriptions.rs / im.rs refine Layer P (NoLostUpdate at quiescence, RetrySameContent, MinInterval, EndsWithinMax, LivenessBeforeMax); TLC-simulated schedules are replayed on the real Subscriptions object through the verif wrappers (the harness plays the reporter loop and the priming path) and the recorded traces are validated by TLC against Layer P, every run ending with a quiescence check.",
+         "Trusted: TLC; the harness' rendering of the reporter loop of im.rs (sweep, report while reportable, purge) - the loop itself is exercised by the full-stack level when present. Timing rules are checked with the table's own notion of time (the `now` passed in).",
+         "TLA+ refinement check (TLC) + TLC-generated schedules replayed on the real code + TLC trace validation", "DESIGN.md section 4 C13"),
+ "C18": ("model_checking",
+         "TLC proves exhaustively (window 3, up to 2-3 messages of 1 or 3 segments per end, every order of send / poll / deliver / fetch / ack-timer steps of the two ends) that the two BTP ends transcribed from btp.rs and btp/session.rs refine Layer P (exactly-once in-order delivery, window never exceeded, never a panic) ; TLC-simulated step schedules - well-behaved, or ending in a hostile segment of one of 15 classes - plus harness-made long runs across the 8-bit sequence wrap and window-overrun runs are replayed on two real Btp objects, and TLC validates the recorded wire/app traces against Layer P (including: protocol-violating segments are refused with an error, acknowledgements go out before the deadline, no corrupted delivery after an accepted hostile segment).",
+         "Trusted: TLC; GATT modelled as ordered lossless byte channels; window 3 / payload MTU 20 (other sizes only in the thorough tier's harness runs). Byte-level segment fidelity is checked by comparing the fetched bytes with the submitted ones.",
+         "TLA+ refinement check (TLC) + TLC-generated schedules replayed on the real code + TLC trace validation", "DESIGN.md section 4 C18"),
 }
 
 NOT_YET = "check not built yet in this tree (see DESIGN.md section 7 for the build order); not claimed"
